@@ -599,6 +599,10 @@ class XsdAnyElement(XsdWildcard, ParticleMixin,
                 return other.is_overlap(self)
             return False
 
+        if not self.namespace and not self.not_namespace or \
+                not other.namespace and not other.not_namespace:
+            return False  # a wildcard that allows no namespace doesn't match any name
+
         if self.not_namespace:
             if other.not_namespace:
                 return True
